@@ -353,6 +353,30 @@ func C17(run *core.Run) {
 			viol("html.attrMap", probe[0]+"=probe", fmt.Sprintf("attribute value lost: %q -> %q", in, out))
 		}
 	}
+	// attributes that the standard does not define as URL-valued are not rewritten as URLs: a value that merely
+	// looks like a data URI (and could be re-encoded shorter) is text
+	{
+		probeAttrs := map[string]bool{"value": true, "title": true, "alt": true, "placeholder": true, "content": true, "label": true, "data-src": true, "name": true, "aria-label": true, "abbr": true, "pattern": true}
+		for attr := range mhtml.VerifAttrTraits() {
+			probeAttrs[attr] = true
+		}
+		const lookalike = "data:text/plain;base64,SGVsbG8sIFdvcmxkIQ=="
+		for attr := range probeAttrs {
+			if stdURLAttrs[attr] || attr == "style" || strings.HasPrefix(attr, "on") || stdBooleanAttrs[attr] {
+				continue
+			}
+			for _, el := range []string{"div", "input", "option", "meta", "img"} {
+				entry := el + "@" + attr + "=data-uri-lookalike"
+				ev("html.attrMap", entry, true)
+				in := "<!doctype html><title>t</title><p><" + el + " " + attr + "=\"" + lookalike + "\"></p>"
+				out, err, _ := minifyBytes(hm, "text/html", []byte(in))
+				eo, _ := htmlEvents(string(out))
+				if v, ok := htmlFirstAttr(eo, el, attr); err != nil || !ok || !strings.EqualFold(v, lookalike) { // (enumerated attributes may be lower-cased)
+					viol("html.attrMap", entry, fmt.Sprintf("a non-URL attribute was rewritten like a URL: %q -> %q", in, out))
+				}
+			}
+		}
+	}
 	for _, mt := range mhtml.VerifJSMimetypes() {
 		ev("html.jsMimetypes", mt, true)
 		if !stdJSMimes[mt] {
